@@ -144,7 +144,19 @@ REJECTED_THEN_USE = [
 # requests whose text depended on the hash seed / Dummy count before fix c65a38d (anonymous
 # same-named indices created by wicks): checked under every environment of the pool
 ENV_REGRESSION = {"expr.wicks(opgen)", "expr.wicks(opgen,deltas)", "expr.wicks(wick3,nodeltas)",
-                  "expr.wicks(opstring2)"}
+                  "expr.wicks(opstring2)",
+                  # several equivalent results exist: the choice must not follow hash order
+                  "expr.cancel_orb_energy_frac(dep4)", "expr.cancel_orb_energy_frac(dep4x)",
+                  "expr.reduce_expr(dep4)"}
+
+# requests that mix user-chosen contracted names with generic ones: issued at every phase of
+# the generic name pools (which generic names are handed out depends only on how many were
+# requested before)
+POOL_PHASE = ["expr.expand_substitute(gap_kc)", "expr.expand_substitute(gap_me)",
+              "expr.expand_substitute(gap_ld)", "expr.norm_times(gap_kcY)",
+              "expr.norm_times(gap_ldY)", "expr.expand_intermediates(itmds,once)",
+              "expr.expand_simplify(gap_kc)", "itmd.t1_2.expand_itmd(jb,once)",
+              "expr.simplify(alpha3)", "gs.mp.amplitude(2,ph,jb)"]
 
 PANEL = ["m.mp.pp.isr_matrix_block(1,ph,ph,ia,jb)", "gs.mp.expand_norm_factor(6)",
          "isr.mp.pp.expand_S_taylor(6)", "isr.mp.ea.precursor(1,p,ket,a)",
@@ -356,6 +368,20 @@ def run(tier, seed):
         for order in ((5, 0), (0, 5), (5, 5)):
             steps = [{"op": "req", "t": tid, "form": f} for f in order]
             jobs.append({"kind": "c19", "seed": seed, "run": f"spelling-{tid}-{order}",
+                         "env": pool[0], "params": DEFAULT_PARAMS, "steps": steps,
+                         "ref": ref_for(ref, steps), "timeout": 900})
+    for tid in POOL_PHASE:
+        if tid not in ref:
+            continue
+        for n in range(9):
+            if not thorough and cat.BY_ID[tid]["cost"] >= 2 and n % 3 != seed % 3:
+                continue
+            kw = {"occ": n, "virt": (2 * n + 1) % 9, "general": n % 3}
+            steps = [{"op": "reg.generic", "kw": {k: v for k, v in kw.items() if v}},
+                     {"op": "req", "t": tid}]
+            if n % 2:
+                steps.append({"op": "req", "t": tid})
+            jobs.append({"kind": "c19", "seed": seed, "run": f"phase-{n}-{tid}",
                          "env": pool[0], "params": DEFAULT_PARAMS, "steps": steps,
                          "ref": ref_for(ref, steps), "timeout": 900})
     # the same request with other target index names (slots exchanged, crossed, chained,
